@@ -4,7 +4,7 @@
 # when .lake is absent (e.g. inside a `vp run` snapshot).  Used for false-alarm sweeps on the unchanged tree.
 HERE="$(cd "$(dirname "$0")" && pwd)"; cd "$HERE" || exit 2
 TIER="$1"; shift
-[ -x lean/.lake/build/bin/driver ] || { /venv/bin/python harness/translate_hc.py --write && /venv/bin/python harness/translate_wiring.py --write && (cd lean && lake build >/dev/null 2>&1); }
+[ -x lean/.lake/build/bin/driver ] || { /venv/bin/python harness/translate_all.py --write && (cd lean && lake build >/dev/null 2>&1); }
 export VERIF_EVIDENCE_DIR="${VERIF_EVIDENCE_DIR:-/tmp/verif_evidence_sweep_$$}"
 export VERIF_SKIP_LEANCHECKER=1
 P="${SWEEP_PAR:-6}"
